@@ -88,26 +88,26 @@ theorem decodeData_image (d : Data) (rest : Bytes) (hn : d.skipN < d.data.length
   have hrem : (d.data.drop d.skipN ++ rest).length = d.data.length - d.skipN + rest.length := by simp
   have hoffn : (if d.offset.isSome then 2 else 0) = 2 ∨ d.skipN = 0 := by
     unfold Data.skipN; cases d.offset <;> simp
+  have hge : (d.data.drop d.skipN ++ rest).length ≤ (dataTail d ++ rest).length := by
+    rw [List.length_append (as := dataTail d), hrem, htl]; omega
+  rw [subM_ok hge]
+  simp only []
+  have hhdr : 2 + ((dataTail d ++ rest).length - (d.data.drop d.skipN ++ rest).length) =
+      2 + (dataTail d).length - (d.data.length - d.skipN) := by
+    rw [List.length_append (as := dataTail d), hrem, htl]; rcases hoffn with h | h <;> omega
+  rw [hhdr]
   rcases hlen with hl | ⟨hl, hmax⟩
   · rw [hl]
     simp only [M.ite_apply, fail_apply, bind_apply, pure_apply]
     rw [if_neg (by rw [hrem]; omega), readBytes_all]
   · rw [hl]
     have hu : (UInt16.ofNat (2 + (dataTail d).length)).toNat = 2 + (dataTail d).length := u16_small (by omega)
-    simp only [hu, M.ite_apply, fail_apply, bind_apply, pure_apply, List.length_append, hrem]
-    have hhdr : 2 + ((dataTail d).length + rest.length - (d.data.length - d.skipN + rest.length)) =
-        2 + (dataTail d).length - (d.data.length - d.skipN) := by
-      rw [htl]; rcases hoffn with h | h <;> omega
-    rw [hhdr]
+    simp only [hu, M.ite_apply, fail_apply, bind_apply, pure_apply]
     have hpl : 2 + (dataTail d).length - (2 + (dataTail d).length - (d.data.length - d.skipN)) = d.data.length - d.skipN := by
       rw [htl]; omega
-    rw [hpl]
-    have c1 : (decide (2 + (dataTail d).length < 2 + (dataTail d).length - (d.data.length - d.skipN)) ||
-        decide (d.data.length - d.skipN > d.data.length - d.skipN + rest.length)) = false := by
-      simp
-    rw [c1]
-    simp only [Bool.false_eq_true, if_false]
-    rw [if_neg (by omega), readBytes_ok _ (by rw [hrem]; omega)]
+    rw [if_neg (by omega), subM_ok (by omega)]
+    simp only []
+    rw [hpl, if_neg (by rw [hrem]; omega), if_neg (by omega), readBytes_ok _ (by rw [hrem]; omega)]
     have ht : (d.data.drop d.skipN ++ rest).take (d.data.length - d.skipN) = d.data.drop d.skipN :=
       List.take_left' (by simp)
     have hd : (d.data.drop d.skipN ++ rest).drop (d.data.length - d.skipN) = rest :=
